@@ -5,6 +5,7 @@ From Coq Require Import ZifyBool ZifyNat ZifyN.
 Import ListNotations.
 Require Import Aurora.C02.Model Aurora.C02.Spec Aurora.C02.Stream.
 Ltac Zify.zify_post_hook ::= Z.div_mod_to_equations.
+Ltac splits := repeat lazymatch goal with |- _ /\ _ => split end.
 
 (** * little-endian encoding *)
 Lemma le_bytes_length k n : length (le_bytes k n) = k.
@@ -46,6 +47,20 @@ Proof. unfold u64. rewrite N.add_mod_idemp_r by (apply N.pow_nonzero; lia). refl
 
 Lemma i64_small z : (- 2 ^ 63 <= z < 2 ^ 63)%Z -> i64 z = z.
 Proof. intros Hz. unfold i64. rewrite Z.mod_small; lia. Qed.
+
+Lemma chunks_of_length_bounds cs (Hcs : (0 < cs)%nat) data :
+  (length data / cs <= length (chunks_of cs data) <= length data / cs + 1)%nat.
+Proof.
+  destruct data as [|x data]; [cbn [chunks_of length]; rewrite Nat.div_0_l by lia; lia|].
+  cbn [chunks_of]. remember (x :: data) as d eqn:Ed.
+  rewrite (group_splitb cs d Hcs), app_length.
+  pose proof (length_splitb cs d Hcs) as Hsz.
+  destruct (splitb_inv cs d Hcs) as (_ & _ & Ht).
+  assert (Hq : (length d / cs = length (fulls cs d))%nat).
+  { rewrite Hsz, Nat.mul_comm, Nat.div_add_l by lia. rewrite Nat.div_small by lia. lia. }
+  rewrite Hq. destruct (tailb cs d); cbn [length]; lia.
+Qed.
+
 
 (** * trees and entries *)
 Section Concrete.
@@ -119,7 +134,7 @@ Section Concrete.
     { rewrite Nat.pow_succ_r'. pose proof (pow_ge_1 levels_cap). nia. }
     destruct (push_state_of ne np b Hb levels_cap xs (mkE span ref) Hpre) as (fl & Hw & Hfl).
     rewrite Hw. eexists. split; [reflexivity|]. cbn [t_levels t_full t_log]. split; [split|]; [reflexivity| |reflexivity].
-    intros Hlt'. rewrite (Hf Hlt). cbn [orb]. destruct fl; [|reflexivity].
+    intros Hlt'. cbn [orb]. destruct fl; [|reflexivity].
     specialize (Hfl eq_refl). rewrite app_length in Hlt'. cbn [length] in Hlt'. lia.
   Qed.
 
@@ -178,7 +193,7 @@ Section Concrete.
     induction fuel as [|fuel IH]; intros rest dpre w t cks Hfuel Hd Hpre Hp Hcap; [lia|].
     destruct rest as [|r0 rest'].
     - cbn [feed_loop]. exists false, dpre, w, t, []. rewrite !app_nil_r. cbn [concat app length].
-      repeat split; try assumption; try constructor; try lia; try congruence.
+      splits; try assumption; try constructor; try reflexivity; try lia; try congruence.
     - cbn [feed_loop]. remember (r0 :: rest') as rest eqn:Er.
       assert (Hrne : rest <> []) by (subst rest; discriminate).
       assert (Hrl : (0 < length rest)%nat) by (subst rest; cbn; lia).
@@ -186,13 +201,13 @@ Section Concrete.
       + apply Nat.ltb_lt in Elt. destruct Hpre as [-> | Hge]; [|lia].
         exists true, rest, (w + Z.of_nat (length rest))%Z, t, [].
         cbn [concat app length] in *. rewrite app_nil_r.
-        repeat split; try assumption; try constructor; try lia; try congruence.
+        splits; try assumption; try constructor; try reflexivity; try lia; try congruence.
       + apply Nat.ltb_ge in Elt.
         assert (Hn : Nat.min (cs - length dpre) (length rest) = (cs - length dpre)%nat) by lia.
-        rewrite Hn. set (n := (cs - length dpre)%nat) in *.
-        set (payload := dpre ++ firstn n rest).
+        rewrite Hn. clear Hn. remember (cs - length dpre)%nat as n eqn:En.
+        remember (dpre ++ firstn n rest) as payload eqn:Epl.
         assert (Hpl : length payload = cs).
-        { unfold payload. rewrite app_length, firstn_length. lia. }
+        { subst payload. rewrite app_length, firstn_length. lia. }
         assert (Hq : (1 <= (length dpre + length rest) / cs)%nat).
         { apply Nat.div_le_lower_bound; lia. }
         destruct (stage_write_ok t cks payload Hp ltac:(lia)) as (t1 & Hw1 & Hp1).
@@ -201,12 +216,12 @@ Section Concrete.
         destruct (IH (skipn n rest) [] (w + Z.of_N (N.of_nat (length payload)))%Z t1 (cks ++ [payload]))
           as (early & buf' & w' & t' & newc & Hfl & Hdec & Hun & Hbl & Hpi & Hw' & He & Hf1 & Hf2);
           [lia | cbn; lia | now left | exact Hp1 | |].
-        { rewrite app_length. cbn [length].
+        { rewrite app_length. cbn [length]. rewrite Nat.add_0_l.
           replace (length dpre + length rest)%nat with (1 * cs + (length rest - n))%nat in Hcap by lia.
           rewrite Nat.div_add_l in Hcap by lia. rewrite Hsk. lia. }
         exists early, buf', w', t', (payload :: newc).
         split; [exact Hfl|]. split.
-        { cbn [concat]. rewrite <- app_assoc, <- Hdec. unfold payload. cbn [app].
+        { cbn [concat]. rewrite <- app_assoc, <- Hdec. subst payload. cbn [app].
           rewrite <- app_assoc, firstn_skipn. reflexivity. }
         split; [constructor; assumption|]. split; [assumption|]. split.
         { rewrite <- app_assoc in Hpi. exact Hpi. }
@@ -229,7 +244,7 @@ Section Concrete.
   Lemma feeder_init_inv : feeder_inv feeder_init [] [].
   Proof.
     unfold feeder_inv, feeder_init. cbn [f_buf f_wrote f_next concat app length].
-    repeat split; try constructor; try lia; try congruence. apply pipe_init. apply pipe_init.
+    splits; try apply pipe_init; try constructor; try reflexivity; try lia; try congruence.
   Qed.
 
   Lemma uniform_length cks : uniform cks -> length (concat cks) = (cs * length cks)%nat.
@@ -291,5 +306,143 @@ Section Concrete.
         split; [lia|]. split; [assumption|].
         split; [rewrite app_length; lia|]. split; [intros Hx; contradiction|].
         intros _ _. lia.
+  Qed.
+
+  Definition seg_lens (segs : list bytes) : list Z := map (fun s => Z.of_nat (length s)) segs.
+
+  Lemma feed_all_ok : forall segs f data cks rets,
+    feeder_inv f data cks -> (Z.of_nat (length (data ++ concat segs)) < 2 ^ 63)%Z ->
+    (length (data ++ concat segs) / cs <= b ^ levels_cap)%nat ->
+    exists f' cks', feed_all H cs b refLen f segs rets = Ok (f', rets ++ seg_lens segs)
+      /\ feeder_inv f' (data ++ concat segs) cks'.
+  Proof.
+    induction segs as [|s segs IH]; intros f data cks rets Hi H63 Hcap.
+    - exists f, cks. cbn [feed_all seg_lens map concat]. rewrite !app_nil_r. now split.
+    - cbn [concat] in *. rewrite app_assoc in *. cbn [feed_all].
+      assert (Hle : (length (data ++ s) <= length ((data ++ s) ++ concat segs))%nat) by (rewrite (app_length (data ++ s)); lia).
+      destruct (feeder_write_ok f data cks s Hi) as (f1 & cks1 & Hw & Hi1); [lia| |].
+      { etransitivity; [apply Nat.div_le_mono; [lia | exact Hle] | exact Hcap]. }
+      rewrite Hw. destruct (IH f1 (data ++ s) cks1 (rets ++ [Z.of_nat (length s)]) Hi1 H63 Hcap) as (f' & cks' & Hfa & Hi').
+      exists f', cks'. split; [|exact Hi']. rewrite Hfa. cbn [seg_lens map]. now rewrite <- app_assoc.
+  Qed.
+
+  Lemma chunks_of_nonempty data : data <> [] -> chunks_of cs data = group cs data.
+  Proof. destruct data; [congruence | reflexivity]. Qed.
+
+  Lemma trie_sum_ok t leaves :
+    pipe_inv t leaves -> (1 <= length leaves <= b ^ levels_cap)%nat ->
+    exists e lg, trie_sum H b t = Ok (e_ref e, lg)
+      /\ iter_level ne b levels_cap (map leaf_entry leaves) = [e]
+      /\ (forall p, In p lg <-> In p (map leaf_chunk leaves) \/ In p (spec_log ne np b levels_cap (map leaf_entry leaves))).
+  Proof.
+    intros [[Hl _] Hlog] Hlen'. unfold trie_sum. change (maxLevel - 1)%nat with levels_cap. rewrite Hl.
+    destruct (sum_loop_spec ne np b Hb levels_cap (map leaf_entry leaves) []) as (lg & Hs & Hlg).
+    { cbn; lia. } { rewrite app_nil_r, map_length. exact Hlen'. }
+    rewrite add_extra_nil, app_nil_r in Hs. rewrite Hs.
+    destruct (iter_level_singleton ne b Hb levels_cap (map leaf_entry leaves)) as (e & He).
+    { rewrite map_length. exact Hlen'. }
+    rewrite He. exists e, (t_log t ++ lg). split; [reflexivity|]. split; [reflexivity|].
+    intros p. rewrite app_nil_r in Hlg. rewrite in_app_iff, (Hlog p), <- (Hlg p). tauto.
+  Qed.
+
+  Lemma feeder_sum_ok f data cks :
+    feeder_inv f data cks -> (Z.of_nat (length data) + Z.of_nat cs + 8 < 2 ^ 63)%Z ->
+    (length (chunks_of cs data) <= b ^ levels_cap)%nat ->
+    exists e lg, feeder_sum H b refLen f = Ok (e_ref e, lg)
+      /\ iter_level ne b levels_cap (map leaf_entry (chunks_of cs data)) = [e]
+      /\ (forall p, In p lg <-> In p (map leaf_chunk (chunks_of cs data))
+                              \/ In p (spec_log ne np b levels_cap (map leaf_entry (chunks_of cs data)))).
+  Proof.
+    intros (Hd & Hu & Hbl & Hp & Hw & Hw0 & Hw1) H63 Hcap. unfold feeder_sum.
+    assert (Hfin : exists t2, pipe_inv t2 (chunks_of cs data) /\
+      (match (if Nat.ltb 0 (length (f_buf f)) then
+               match stage_write H b refLen (f_next f) (le64 (N.of_nat (length (f_buf f)))) (le64 (N.of_nat (length (f_buf f))) ++ f_buf f) with
+               | Ok t => Ok (t, i64 (f_wrote f + Z.of_nat (length (f_buf f) + 8)))
+               | Err x => Err x
+               end
+             else Ok (f_next f, f_wrote f)) with
+       | Err x => Err x
+       | Ok (t1, wrote1) =>
+           match (if (wrote1 =? 0)%Z then stage_write H b refLen t1 (le64 0) (le64 0) else Ok t1) with
+           | Ok t2 => trie_sum H b t2
+           | Err x => Err x
+           end
+       end) = trie_sum H b t2).
+    { destruct (f_buf f) as [|x0 buf0] eqn:Ebuf.
+      - (* nothing buffered *)
+        cbn [length Nat.ltb Nat.leb]. rewrite app_nil_r in Hd.
+        destruct (f_wrote f =? 0)%Z eqn:Ez.
+        + apply Z.eqb_eq in Ez.
+          assert (Hc0 : cks = []).
+          { destruct cks as [|c cks']; [reflexivity|]. specialize (Hw1 ltac:(discriminate) eq_refl). lia. }
+          subst cks. cbn [concat] in Hd. subst data. cbn [chunks_of].
+          destruct (stage_write_ok (f_next f) [] [] Hp) as (t2 & Hs2 & Hp2).
+          { cbn [length]. pose proof (pow_ge_1 levels_cap). lia. }
+          unfold leaf_chunk in Hs2. cbn [length N.of_nat] in Hs2. rewrite app_nil_r in Hs2.
+          exists t2. split; [exact Hp2|]. rewrite Hs2. reflexivity.
+        + apply Z.eqb_neq in Ez.
+          assert (Hcne : cks <> []) by (intros ->; now apply Ez, Hw0).
+          assert (Hdne : data <> []).
+          { destruct cks as [|c cks']; [congruence|]. inversion Hu as [|? ? Hc _]; subst.
+            destruct c; [cbn in Hc; lia | discriminate]. }
+          exists (f_next f). split; [|reflexivity].
+          rewrite (chunks_of_nonempty data Hdne). rewrite Hd at 1. rewrite <- (app_nil_r (concat cks)).
+          rewrite group_concat by assumption. rewrite group_nil, app_nil_r. exact Hp.
+      - (* flush the buffer *)
+        rewrite <- Ebuf in *. assert (Hbne : f_buf f <> []) by (rewrite Ebuf; discriminate).
+        assert (Hbl0 : (0 < length (f_buf f))%nat) by (rewrite Ebuf; cbn; lia).
+        replace (Nat.ltb 0 (length (f_buf f))) with true by (symmetry; apply Nat.ltb_lt; exact Hbl0).
+        assert (Hdne : data <> []).
+        { rewrite Hd. intros Hx. apply app_eq_nil in Hx as [_ Hx]. contradiction. }
+        assert (Hleaves : chunks_of cs data = cks ++ [f_buf f]).
+        { rewrite (chunks_of_nonempty data Hdne). rewrite Hd at 1. rewrite group_concat by assumption.
+          f_equal. apply group_short. lia. }
+        rewrite Hleaves in *. rewrite app_length in Hcap. cbn [length] in Hcap.
+        destruct (stage_write_ok (f_next f) cks (f_buf f) Hp ltac:(lia)) as (t1 & Hs1 & Hp1).
+        unfold leaf_chunk in Hs1. rewrite Hs1.
+        rewrite i64_small by lia.
+        replace (f_wrote f + Z.of_nat (length (f_buf f) + 8) =? 0)%Z with false by (symmetry; apply Z.eqb_neq; lia).
+        exists t1. split; [exact Hp1 | reflexivity]. }
+    destruct Hfin as (t2 & Hp2 & Heq). rewrite Heq.
+    apply trie_sum_ok; [exact Hp2|]. split; [|exact Hcap].
+    destruct data; cbn [chunks_of length]; [lia|].
+    rewrite (group_splitb cs _ Hcs), app_length.
+    pose proof (length_splitb cs (n :: data) Hcs) as Hsz.
+    destruct (tailb cs (n :: data)); cbn [length] in *; nia.
+  Qed.
+
+  Definition tree_emit (ts : list tree) : bytes := tree_chunk H (Node ts).
+
+  (** everything the upload does, against the specification *)
+  Theorem upload_spec segs :
+    (Z.of_nat (length (concat segs)) + Z.of_nat cs + 8 < 2 ^ 63)%Z ->
+    (length (chunks_of cs (concat segs)) <= b ^ levels_cap)%nat ->
+    exists u t, upload H cs b refLen segs = Ok u
+      /\ spec_tree cs b (concat segs) = Some t
+      /\ u_root u = tree_ref H t
+      /\ u_rets u = seg_lens segs
+      /\ (forall p, In p (u_log u) <->
+            In p (map leaf_chunk (chunks_of cs (concat segs)))
+            \/ In p (spec_log Node tree_emit b levels_cap (map Leaf (chunks_of cs (concat segs))))).
+  Proof.
+    intros H63 Hcap. unfold upload.
+    pose proof (chunks_of_length_bounds cs Hcs (concat segs)) as Hcb.
+    destruct (feed_all_ok segs feeder_init [] [] [] feeder_init_inv) as (f & cks & Hfa & Hi).
+    { cbn [app]. lia. } { cbn [app]. lia. }
+    cbn [app] in Hfa, Hi. rewrite Hfa.
+    destruct (feeder_sum_ok f (concat segs) cks Hi H63 Hcap) as (e & lg & Hs & Hit & Hlg).
+    rewrite Hs. set (leaves := chunks_of cs (concat segs)) in *.
+    assert (Hm : map leaf_entry leaves = map ent (map Leaf leaves)).
+    { rewrite map_map. apply map_ext. intros d. apply leaf_entry_ent. }
+    rewrite Hm in Hit. rewrite <- (iter_level_map ent Node ne b ne_ent) in Hit.
+    destruct (iter_level Node b levels_cap (map Leaf leaves)) as [|t [|? ?]] eqn:Eit; try discriminate.
+    cbn [map] in Hit. injection Hit as He.
+    exists (mkU (e_ref e) (seg_lens segs) lg), t. cbn [u_root u_rets u_log].
+    split; [reflexivity|]. split.
+    { unfold spec_tree. fold leaves. apply (build_iter Node b Hb levels_cap); [lia | exact Eit]. }
+    split; [rewrite <- He; reflexivity|]. split; [reflexivity|].
+    intros p. rewrite (Hlg p), Hm.
+    rewrite (spec_log_map ent Node ne b ne_ent tree_emit np) by (intros l; unfold tree_emit; now rewrite np_ent).
+    reflexivity.
   Qed.
 End Concrete.
